@@ -2,8 +2,9 @@
 
 The documented edit of a codemod on a seed is the one the repository's own test expects (vendored corpus): the token
 multisets deleted and inserted between the seed's input and expected output.  For every hardening codemod, every seed
-is varied along the Variants.tla feature vectors (nesting, layout, line endings; multiplicity 1) - variations add the
-same tokens before and after - and run through the real CLI; the delta of each rewritten file (identifiers, attribute
+is varied along the Variants.tla feature vectors (nesting, layout, line endings, and the argument list of the calls on
+the lines the fix touches extended by `**extra_kw` last / in front of the keywords, one more keyword, a `**extra_map`
+entry in dict arguments; multiplicity 1) - variations add the same tokens before and after - and run through the real CLI; the delta of each rewritten file (identifiers, attribute
 names, keywords, constants, star markers; in source order) must equal the documented delta of its seed: nothing else
 deleted, inserted or re-ordered.  The observation enters FileEnd events as `bagOk` and is monitored by Trace_Run.
 """
@@ -16,6 +17,7 @@ from ..common import Check
 from . import c01
 
 LEVEL = "exploration"
+RULE = ('cases = (hardening codemod, vendored seed, feature vector incl. argument-list variations) programs; non-trivial when the codemod rewrote the file; distinct = distinct (codemod, seed, vector)')
 CLAUSE = "FileEnd:rewrite-changed-more-than-the-documented-edit"
 
 HARDENING = [
@@ -27,14 +29,22 @@ HARDENING = [
     "pixee:python/timezone-aware-datetime", "pixee:python/django-json-response-type", "pixee:python/fix-math-isclose",
 ]
 
+# the target APIs of these codemods take no further arguments (`ssl.SSLContext(protocol)`, `datetime.utcnow()`,
+# `datetime.utcfromtimestamp(ts)`, `random.random()` ...): a call extended by `**extra_kw` / one more keyword is not a
+# valid use of them, so the argument-list variations are not applied there
+NO_EXTRA_ARGS = {"pixee:python/upgrade-sslcontext-tls", "pixee:python/timezone-aware-datetime", "pixee:python/secure-random", "pixee:python/limit-readline"}
+
 
 def run(chk: Check) -> None:
     from .. import seeds
 
-    vectors = [v for v in progspace.enumerate_vectors(chk) if v["mult"] == 1 and v["imp"] == "asis" and v["layout"] != "bom"]
-    scenarios = progspace.build_batches(chk, codemods=set(HARDENING), vectors=vectors, seeds_per_codemod=chk.pick(4, 14), vectors_per_seed=chk.pick(5, 30))
+    vectors = [v for v in progspace.enumerate_vectors(chk, with_args=True) if v["mult"] == 1 and v["imp"] == "asis" and v["layout"] != "bom" and v["args"] != "same-line-pair"]
+    scenarios = progspace.build_batches(chk, codemods=set(HARDENING), vectors=vectors, seeds_per_codemod=chk.pick(4, 14), vectors_per_seed=chk.pick(9, 40))
     by_key = {s.key: s for s in seeds.load()}
     for scn in scenarios:
+        if scn["_codemod"] in NO_EXTRA_ARGS:
+            for rel in [r for r, m in scn["_metas"].items() if m["vector"].get("args", "asis") != "asis"]:
+                del scn["_metas"][rel], scn["files"][rel]
         expect = {}
         for rel, meta in scn["_metas"].items():
             s = by_key[meta["seed"]]
